@@ -552,6 +552,9 @@ impl NamedFile {
                 if let Some(range) = HttpRange::parse(ranges_header, length)
                     .ok()
                     .and_then(|ranges| ranges.first().copied())
+                    // an empty range (e.g. a suffix range on an empty file) has no last byte
+                    // position and cannot be described by Content-Range: not satisfiable
+                    .filter(|range| range.length > 0)
                 {
                     ranged_req = true;
                     length = range.length;
